@@ -43,6 +43,7 @@ def handle (op : String) (args : List String) : Option String :=
     | "c02.gen.cone", some [s] => if s < 3 then some "rejected" else some (genOut (coneVerts s) (coneTris s))
     | "c02.gen.extrude_shape", some [pl, sd, cl] =>
         if pl < 2 then some "rejected" else some (genOut (extrudeShapeVerts pl sd) (extrudeShapeTris pl sd (cl != 0)))
+    | "c02.gen.extrude_line", some [n] => if n < 2 then some "rejected" else some (genOut (extrudeLineVerts n) (extrudeLineTris n))
     | "c02.gen.quad", some [] => some (genOut quadVerts quadTris)
     | "c02.gen.cube", some [] => some (genOut cubeVerts cubeTris)
     | "c02.gen.cube_unwelded", some [] => some (genOut cubeUnweldedVerts cubeUnweldedTris)
